@@ -32,6 +32,31 @@ Theorem C19_precedence : forall explicit d, help_gen explicit d = spec_help expl
 Proof. exact help_precedence. Qed.
 Print Assumptions C19_precedence.
 
+(* ... and the help= the argparse action finally receives (regenerated: the if-chain of FieldWrapper.get_arg_options,
+   overlaid with field(help=..) by FieldWrapper.arg_options) is that text, whichever way the explicit help= was given
+   (custom: field(help=..), explicit: dataclasses metadata); a field without documentation gets no help, or the
+   placeholder that the help formatter erases again.  Side condition: the help= given to field() is not the EMPTY string *)
+Theorem C19_shown_help_partial : forall custom explicit d has_default,
+  custom_ok custom = true ->
+  final_help_gen custom (action_help_gen (help_gen explicit d) has_default)
+  = match spec_help (explicit_help custom explicit) (parts_prov d) with
+    | Some s => Some s
+    | None => if has_default then Some PLACEHOLDER else None
+    end.
+Proof. exact shown_help_spec. Qed.
+Print Assumptions C19_shown_help_partial.
+
+(* field(help="") replaces the documentation by an empty help *)
+Theorem C19_shown_help_refuted :
+  exists custom explicit d hd,
+    final_help_gen custom (action_help_gen (help_gen explicit d) hd)
+    <> match spec_help (explicit_help custom explicit) (parts_prov d) with
+       | Some s => Some s
+       | None => if hd then Some PLACEHOLDER else None
+       end.
+Proof. exact shown_help_refuted. Qed.
+Print Assumptions C19_shown_help_refuted.
+
 Theorem C19_help_string_chain : HELP_STRING_CHAIN = HELP_CHAIN.
 Proof. exact help_string_chain_same. Qed.
 Print Assumptions C19_help_string_chain.
